@@ -425,3 +425,9 @@ def run(pm, ctx):
     run_decisions(pm, ctx, 'C09-RD', OWN['C09'])
     from .. import exprdrift
     exprdrift.run(pm, ctx, 'C09-RE', OWN['C09'])
+    ctx.import_rules(pm, 'C10', {'C10-R5'}, 'C09-R8',
+                     'default values are emitted with the generated class and tag names (shared with '
+                     'C10-R5)')
+    ctx.import_rules(pm, 'C08', {'C08-R3'}, 'C09-R9',
+                     'validator constructors are emitted as well-formed Python: every parameter '
+                     'forwarded, text parameters through repr() (shared with C08-R3)')
